@@ -62,17 +62,21 @@ Section Trust.
   Hypothesis good_inj : forall a b, good a -> good b -> stream a = stream b -> a = b.
   Hypothesis good_file : forall c, good (File false c).
   Hypothesis act_good : forall t ins news, U t -> Forall good (map snd ins) ->
-    act (t_kind t) (outputs t) ins = Some news -> Forall good (map snd news).
+    result t ins = Some news -> Forall good (map snd news).
 
-  Definition justified (t : target) (sk : skey) (o : str) (n : node) : Prop :=
+  (* the outputs a record speaks about: for a target with output_dirs those folded into its post-build rule hash *)
+  Definition rec_outs (t : target) (po : list str) : list str := if could_modify t then po else outputs t.
+
+  Definition justified (t : target) (sk : skey) (po : list str) (o : str) (n : node) : Prop :=
     forall ins : list (path * node), key_of ins = sk -> Forall good (map snd ins) ->
-    exists news, act (t_kind t) (outputs t) (tmp_ins ins) = Some news /\ alookup o news = Some n.
+    exists news, result t (tmp_ins ins) = Some news /\ alookup o news = Some n
+                 /\ (could_modify t = true -> po = map fst news).
 
   Record Trust (st : store) : Prop := {
     tr_good : forall rel e, s_outs st rel = Some e -> good (e_node e);
-    tr_rec : forall rel e dk sk, s_outs st rel = Some e -> e_rec e = Some (dk, sk) ->
-             forall t o, U t -> t_defkey t = dk -> In o (outputs t) -> out_rel t o = rel -> justified t sk o (e_node e);
-    tr_cache : forall l dk sk cached, s_cache st l (dk, sk) = Some cached ->
+    tr_rec : forall rel e dk po sk, s_outs st rel = Some e -> e_rec e = Some ((dk, po), sk) ->
+             forall t o, U t -> t_defkey t = dk -> In o (rec_outs t po) -> out_rel t o = rel -> justified t sk po o (e_node e);
+    tr_cache : forall l dk po sk cached, s_cache st l ((dk, po), sk) = Some cached ->
                forall t ins, U t -> t_label t = l -> t_defkey t = dk -> key_of ins = sk -> Forall good (map snd ins) ->
                act (t_kind t) (outputs t) (tmp_ins ins) = Some cached
   }.
@@ -97,18 +101,21 @@ Section Trust.
   Proof.
     intros T. constructor.
     - intros rel' e H. rewrite set_out_outs in H. destruct (str_eqb rel' rel); [discriminate|]. eapply (tr_good st T); eassumption.
-    - intros rel' e dk sk H. rewrite set_out_outs in H. destruct (str_eqb rel' rel); [discriminate|]. eapply (tr_rec st T); eassumption.
-    - intros l dk sk cached H. cbn in H. eapply (tr_cache st T). exact H.
+    - intros rel' e dk po sk H. rewrite set_out_outs in H. destruct (str_eqb rel' rel); [discriminate|]. eapply (tr_rec st T); eassumption.
+    - intros l dk po sk cached H. cbn in H. eapply (tr_cache st T). exact H.
   Qed.
 
+  Lemma trust_remove_fold rels : forall st, Trust st -> Trust (fold_left (fun s x => set_out s x None) rels st).
+  Proof. induction rels as [|x rels IH]; intros st T; cbn [fold_left]; [exact T|]. apply IH. apply trust_set_none. exact T. Qed.
   Lemma trust_remove t st : Trust st -> Trust (remove_outputs t st).
-  Proof.
-    unfold remove_outputs. generalize (out_rels t) as rels. intros rels. revert st.
-    induction rels as [|x rels IH]; intros st T; cbn [fold_left]; [exact T|]. apply IH. apply trust_set_none. exact T.
-  Qed.
+  Proof. apply trust_remove_fold. Qed.
+  Lemma trust_remove_outs t outs st : Trust st -> Trust (remove_outs t outs st).
+  Proof. apply trust_remove_fold. Qed.
 
-  Lemma trust_set_meta st l : Trust st -> Trust (set_meta st l).
+  Lemma trust_set_meta_dyn st l d : Trust st -> Trust (set_meta_dyn st l d).
   Proof. intros T. constructor; cbn; [apply (tr_good st T)|apply (tr_rec st T)|apply (tr_cache st T)]. Qed.
+  Lemma trust_set_meta st l : Trust st -> Trust (set_meta st l).
+  Proof. apply trust_set_meta_dyn. Qed.
 
   (* a file linked by a filegroup carries no record *)
   Lemma trust_set_file st rel c : Trust st -> Trust (set_out st rel (Some (mkE (File false c) None))).
@@ -117,10 +124,10 @@ Section Trust.
     - intros rel' e H. rewrite set_out_outs in H. destruct (str_eqb rel' rel).
       + injection H as <-. apply good_file.
       + eapply (tr_good st T); eassumption.
-    - intros rel' e dk sk H Hr. rewrite set_out_outs in H. destruct (str_eqb rel' rel).
+    - intros rel' e dk po sk H Hr. rewrite set_out_outs in H. destruct (str_eqb rel' rel).
       + injection H as <-. discriminate.
       + eapply (tr_rec st T); eassumption.
-    - intros l dk sk cached H. cbn in H. eapply (tr_cache st T). exact H.
+    - intros l dk po sk cached H. cbn in H. eapply (tr_cache st T). exact H.
   Qed.
 
   (* ---------------------------------------------------------------------------------------- *)
@@ -141,6 +148,7 @@ Section Trust.
   Proof.
     intros Hs. pose proof (wf_paths r W) as Hnd. rewrite Hs, flat_map_app in Hnd.
     apply nodup_app_r in Hnd. cbn [flat_map] in Hnd. apply nodup_app_l in Hnd.
+    unfold claimed in Hnd. apply nodup_app_l in Hnd.
     unfold out_rels in Hnd. eapply NoDup_map_inv. exact Hnd.
   Qed.
 
@@ -171,23 +179,51 @@ Section Trust.
     destruct (str_eqb (stream (e_node e')) (stream (snd on))); [eapply G; exact Ee|exact Hn].
   Qed.
 
-  (* after the moves every declared output holds exactly the new tree, with the record: an old output
-     that was kept because its path hash equals the new one IS the new one (good_inj) *)
-  Lemma move_fold_exact rk t news : forall st, AllGood st -> Forall good (map snd news) -> NoDup (map fst news) ->
+  (* after the moves every output holds exactly the new tree, with the record: an old output that was kept
+     because its path hash equals the new one IS the new one (good_inj).  `news` may name an output twice
+     as long as it is with the same tree (f: the temporary directory) *)
+  Lemma move_fold_exact rk t news (f : str -> option node) : forall st, AllGood st -> Forall good (map snd news) ->
+    (forall o n, In (o, n) news -> f o = Some n) ->
     forall o n, In (o, n) news ->
     s_outs (fold_left (move_output rk t) news st) (out_rel t o) = Some (mkE n (Some rk)).
   Proof.
-    induction news as [|[o' n'] news IH]; intros st G Hg Hnd o n Hin; [destruct Hin|].
-    cbn [fold_left]. cbn [map fst snd] in Hg, Hnd. inversion Hg as [|? ? Hg1 Hg2]; inversion Hnd as [|? ? Hnot Hnd']; subst.
+    induction news as [|[o' n'] news IH]; intros st G Hg Hfun o n Hin; [destruct Hin|].
+    cbn [fold_left]. cbn [map fst snd] in Hg. inversion Hg as [|? ? Hg1 Hg2]; subst.
     assert (Hstep : s_outs (move_output rk t st (o', n')) (out_rel t o') = Some (mkE n' (Some rk))).
     { unfold move_output. cbn [fst snd]. rewrite set_out_same.
       destruct (s_outs st (out_rel t o')) as [e|] eqn:Ee; [|reflexivity].
       destruct (str_eqb_spec (stream (e_node e)) (stream n')) as [Es|_]; [|reflexivity].
       rewrite (good_inj (e_node e) n' (G _ _ Ee) Hg1 Es). reflexivity. }
-    destruct Hin as [E|Hin].
-    - injection E as -> ->. rewrite move_fold_outs; [exact Hstep|].
-      intros Hi. apply in_map_iff in Hi. destruct Hi as [o2 [Hrel Ho2]]. apply join_inj in Hrel. subst o2. contradiction.
-    - apply IH; try assumption. apply move_output_good; assumption.
+    destruct (in_dec (list_eq_dec N.eq_dec) o (map fst news)) as [Hlater|Hnot].
+    - apply in_map_iff in Hlater. destruct Hlater as [[o2 n2] [E2 Hin2]]. cbn [fst] in E2. subst o2.
+      assert (n2 = n).
+      { pose proof (Hfun o n Hin) as H1. pose proof (Hfun o n2 (or_intror Hin2)) as H2. congruence. }
+      subst n2. apply IH; try assumption.
+      + apply move_output_good; assumption.
+      + intros a b Hab. apply Hfun. right. exact Hab.
+    - destruct Hin as [E|Hin].
+      + injection E as -> ->. rewrite move_fold_outs; [exact Hstep|].
+        intros Hi. apply in_map_iff in Hi. destruct Hi as [o2 [Hrel Ho2]]. apply join_inj in Hrel. subst o2. contradiction.
+      + exfalso. apply Hnot. change o with (fst (o, n)). apply in_map. exact Hin.
+  Qed.
+
+  Lemma alookup_fun {A} (l : list (str * A)) (f : str -> option A) k v :
+    (forall o n, In (o, n) l -> f o = Some n) -> In (k, v) l -> alookup k l = Some v.
+  Proof.
+    intros Hfun Hin. assert (Hk : In k (map fst l)) by (change k with (fst (k, v)); apply in_map; exact Hin).
+    destruct (alookup_names l k Hk) as [v' Hv']. rewrite Hv'. apply alookup_some_in in Hv'.
+    pose proof (Hfun _ _ Hin). pose proof (Hfun _ _ Hv'). congruence.
+  Qed.
+
+  Lemma nodup_fun {A} (l : list (str * A)) : NoDup (map fst l) -> forall o n, In (o, n) l -> alookup o l = Some n.
+  Proof. intros Hnd o n Hin. apply alookup_in; assumption. Qed.
+
+  Lemma collect_fun tmp outs moved : collect tmp outs = Some moved -> forall o n, In (o, n) moved -> alookup o tmp = Some n.
+  Proof.
+    revert moved. induction outs as [|x outs IH]; intros moved; cbn [collect].
+    - intros H. injection H as <-. intros o n [].
+    - destruct (alookup x tmp) as [v|] eqn:Ev; [|discriminate]. destruct (collect tmp outs) as [l|]; [|discriminate].
+      intros H. injection H as <-. intros o n [E|Hin]; [injection E as <- <-; exact Ev|eapply IH; [reflexivity|exact Hin]].
   Qed.
 
   Lemma move_fold_cache rk t news : forall st, s_cache (fold_left (move_output rk t) news st) = s_cache st.
@@ -213,15 +249,17 @@ Section Trust.
     - intros Hi. apply in_map_iff in Hi. destruct Hi as [o2 [Hrel Ho2]]. apply join_inj in Hrel. subst o2. contradiction.
   Qed.
 
-  (* the declared outputs now hold exactly the result of the action, under its record: Trust *)
-  Lemma trust_written st st' t ins news : Trust st -> U t -> NoDup (outputs t) ->
-    Forall good (map snd ins) -> act (t_kind t) (outputs t) (tmp_ins ins) = Some news ->
-    (forall o n, In (o, n) news -> s_outs st' (out_rel t o) = Some (mkE n (Some (t_defkey t, key_of ins)))) ->
+  (* the outputs named by `news` now hold exactly the result of the build, under its record: Trust *)
+  Lemma trust_written st st' t ins news po : Trust st -> U t ->
+    Forall good (map snd ins) -> result t (tmp_ins ins) = Some news ->
+    (forall o n, In (o, n) news -> alookup o news = Some n) ->
+    po = (if could_modify t then map fst news else []) ->
+    (could_modify t = false -> map fst news = outputs t) ->
+    (forall o n, In (o, n) news -> s_outs st' (out_rel t o) = Some (mkE n (Some ((t_defkey t, po), key_of ins)))) ->
     (forall rel, ~ In rel (map (out_rel t) (map fst news)) -> s_outs st' rel = s_outs st rel) ->
     s_cache st' = s_cache st -> Trust st'.
   Proof.
-    intros T Ut Hnd Hgood Ea Hexact Hframe Hcache.
-    pose proof (act_names _ _ _ _ Ea) as Hnames.
+    intros T Ut Hgood Ea Hfun Hpo Hplain Hexact Hframe Hcache.
     assert (Hgood' : Forall good (map snd (tmp_ins ins))) by (unfold tmp_ins; rewrite map_map; cbn [snd]; exact Hgood).
     pose proof (act_good t _ _ Ut Hgood' Ea) as Hng.
     constructor.
@@ -230,30 +268,31 @@ Section Trust.
         cbn [fst] in H. rewrite (Hexact _ _ Hon) in H. injection H as <-. cbn [e_node].
         rewrite Forall_forall in Hng. apply Hng. change n with (snd (o1, n)). apply in_map. exact Hon.
       + rewrite Hframe in H by exact Hni. eapply (tr_good _ T). exact H.
-    - intros rel e dk sk H Hr t' o' Ut' Hdk Ho' Hrel.
+    - intros rel e dk po' sk H Hr t' o' Ut' Hdk Ho' Hrel.
       destruct (in_dec (list_eq_dec N.eq_dec) rel (map (out_rel t) (map fst news))) as [Hi|Hni].
       + apply in_map_iff in Hi. destruct Hi as [o [Hrel2 Ho]]. apply in_map_iff in Ho. destruct Ho as [[o1 n] [<- Hon]].
         cbn [fst] in Hrel2. rewrite <- Hrel2 in H. rewrite (Hexact _ _ Hon) in H. injection H as <-. cbn [e_rec e_node] in *.
-        injection Hr as <- <-.
+        injection Hr as <- <- <-.
         assert (t' = t) by (apply U_inj; assumption). subst t'. rewrite <- Hrel2 in Hrel. apply join_inj in Hrel. subst o'.
         intros ins' Hk Hg'. assert (ins' = ins) by (apply key_inj; assumption). subst ins'.
-        exists news. split; [exact Ea|]. apply alookup_in; [rewrite Hnames; exact Hnd|exact Hon].
+        exists news. split; [exact Ea|]. split; [apply Hfun; exact Hon|].
+        intros Hcm. rewrite Hpo, Hcm. reflexivity.
       + rewrite Hframe in H by exact Hni. eapply (tr_rec _ T); eassumption.
-    - intros l dk sk cached H. rewrite Hcache in H. eapply (tr_cache _ T). exact H.
+    - intros l dk po' sk cached H. rewrite Hcache in H. eapply (tr_cache _ T). exact H.
   Qed.
 
   (* storeInCache: the entry stored under (label, rule key, source key) is the result of the action *)
   Lemma trust_set_cache st t ins news : Trust st -> U t -> Forall good (map snd ins) ->
     act (t_kind t) (outputs t) (tmp_ins ins) = Some news ->
-    Trust (set_cache st (t_label t) (t_defkey t, key_of ins) news).
+    Trust (set_cache st (t_label t) ((t_defkey t, []), key_of ins) news).
   Proof.
     intros T Ut Hgood Ea. constructor.
     - intros rel e H. eapply (tr_good _ T). exact H.
-    - intros rel e dk sk H. eapply (tr_rec _ T). exact H.
-    - intros l dk sk cached H t' ins' Ut' Hl Hdk Hk Hg'. cbn [s_cache set_cache] in H.
+    - intros rel e dk po sk H. eapply (tr_rec _ T). exact H.
+    - intros l dk po sk cached H t' ins' Ut' Hl Hdk Hk Hg'. cbn [s_cache set_cache] in H.
       destruct (str_eqb_spec l (t_label t)) as [El|_]; cbn [andb] in H.
-      + destruct (rkey_eqb_spec (dk, sk) (t_defkey t, key_of ins)) as [Ek|_].
-        * injection H as <-. injection Ek as Edk Esk.
+      + destruct (rkey_eqb_spec ((dk, po), sk) ((t_defkey t, []), key_of ins)) as [Ek|_].
+        * injection H as <-. injection Ek as Edk _ Esk.
           assert (t' = t) by (apply U_inj; congruence). subst t'.
           assert (ins' = ins) by (apply key_inj; congruence). subst ins'. exact Ea.
         * eapply (tr_cache _ T); eassumption.
@@ -274,80 +313,96 @@ Section Trust.
 
   Definition rule_spec (rn rn' : run) (t : target) : Prop :=
     Trust (rn_st rn')
-    /\ (forall rel, ~ In rel (out_rels t) -> s_outs (rn_st rn') rel = s_outs (rn_st rn) rel)
+    /\ (forall rel, ~ In rel (claimed r t) -> s_outs (rn_st rn') rel = s_outs (rn_st rn) rel)
     /\ match gather (read r (rn_st rn)) (all_paths r t) with
        | Some ins =>
-           match act (t_kind t) (outputs t) (tmp_ins ins) with
+           match result t (tmp_ins ins) with
            | Some news => rn_failed rn' = rn_failed rn
-                          /\ forall o, In o (outputs t) -> out_of (rn_st rn') t o = alookup o news
+                          /\ full_outs (rn_st rn') t = map fst news
+                          /\ forall o, In o (map fst news) -> out_of (rn_st rn') t o = alookup o news
            | None => rn_failed rn' = t_label t :: rn_failed rn
            end
        | None => rn_failed rn' = t_label t :: rn_failed rn
        end.
 
-  Lemma build_rule_spec c rn done t todo : r_targets r = done ++ t :: todo -> is_filegroup t = false ->
+  Lemma claimed_frame t (P : str -> Prop) : (forall rel, ~ In rel (out_rels t) -> P rel) -> forall rel, ~ In rel (claimed r t) -> P rel.
+  Proof. intros H rel Hn. apply H. intros Hi. apply Hn. apply out_rels_claimed. exact Hi. Qed.
+
+  Lemma build_rule_spec c rn done t todo : r_targets r = done ++ t :: todo -> is_filegroup t = false -> could_modify t = false ->
     Trust (rn_st rn) -> rule_spec rn (build_rule c r rn t) t.
   Proof.
-    intros Hs Hfg T.
+    intros Hs Hfg Hcm T.
     assert (Ht : In t (r_targets r)) by (rewrite Hs; apply in_or_app; right; left; reflexivity).
     pose proof (HU t Ht) as Ut. pose proof (iter_is_all t Ht) as Hiter.
     pose proof (outputs_nodup done t todo Hs) as Hnd.
     unfold rule_spec, build_rule.
+    assert (Hres : forall ins, result t ins = act (t_kind t) (outputs t) ins) by (intros ins; unfold result; rewrite Hcm; reflexivity).
+    assert (Hfull : forall st, full_outs st t = outputs t) by (intros st; unfold full_outs; rewrite Hcm; reflexivity).
     assert (Hsk : source_key r (rn_st rn) t = option_map key_of (gather (read r (rn_st rn)) (all_paths r t)))
       by (unfold source_key; rewrite Hiter; reflexivity).
     destruct (needs_build r (rn_st rn) t) eqn:Enb; cbn [negb].
     - rewrite Hsk. destruct (gather (read r (rn_st rn)) (all_paths r t)) as [ins|] eqn:Eg; cbn [option_map].
       2:{ unfold fail_run. cbn [rn_st rn_failed]. split; [apply trust_remove; exact T|].
-          split; [intros rel Hn; apply remove_outputs_outs; exact Hn|reflexivity]. }
-      pose proof (gather_good _ _ _ T Eg) as Hgood.
-      set (rk := (t_defkey t, key_of ins)).
+          split; [apply claimed_frame; intros rel Hn; apply remove_outputs_outs; exact Hn|reflexivity]. }
+      pose proof (gather_good _ _ _ T Eg) as Hgood. rewrite Hres.
+      set (rk := ((t_defkey t, @nil str), key_of ins)).
       destruct (if c then s_cache (rn_st rn) (t_label t) rk else None) as [cached|] eqn:Ec.
       + (* restored from the cache *)
         assert (Hc : s_cache (rn_st rn) (t_label t) rk = Some cached) by (destruct c; [exact Ec|discriminate]).
-        pose proof (tr_cache _ T _ _ _ _ Hc t ins Ut eq_refl eq_refl eq_refl Hgood) as Ea. rewrite Ea.
+        pose proof (tr_cache _ T _ _ _ _ _ Hc t ins Ut eq_refl eq_refl eq_refl Hgood) as Ea. rewrite Ea.
         pose proof (act_names _ _ _ _ Ea) as Hnames. cbn [rn_st rn_failed].
         set (st' := set_meta (fold_left (restore_output rk t) cached (rn_st rn)) (t_label t)).
         assert (Hexact : forall o n, In (o, n) cached -> s_outs st' (out_rel t o) = Some (mkE n (Some rk))).
         { intros o n Hin. subst st'. rewrite set_meta_outs. apply restore_fold_exact; [rewrite Hnames; exact Hnd|exact Hin]. }
         assert (Hframe : forall rel, ~ In rel (map (out_rel t) (map fst cached)) -> s_outs st' rel = s_outs (rn_st rn) rel).
         { intros rel Hn. subst st'. rewrite set_meta_outs. apply restore_fold_outs. exact Hn. }
-        split; [|split; [|split]].
-        * eapply (trust_written (rn_st rn) st' t ins cached); try eassumption.
-          subst st'. cbn [s_cache set_meta]. apply restore_fold_cache.
-        * intros rel Hn. apply Hframe. rewrite Hnames. exact Hn.
+        split; [|split; [|split; [|split]]].
+        * eapply (trust_written (rn_st rn) st' t ins cached []); try eassumption.
+          -- rewrite Hres. exact Ea.
+          -- apply nodup_fun. rewrite Hnames. exact Hnd.
+          -- rewrite Hcm. reflexivity.
+          -- intros _. exact Hnames.
+          -- subst st'. cbn [s_cache set_meta set_meta_dyn]. apply restore_fold_cache.
+        * apply claimed_frame. intros rel Hn. apply Hframe. rewrite Hnames. exact Hn.
         * reflexivity.
-        * intros o Ho. rewrite <- Hnames in Ho. destruct (alookup_names cached o Ho) as [n Hn]. rewrite Hn.
+        * rewrite Hfull. symmetry. exact Hnames.
+        * intros o Ho. destruct (alookup_names cached o Ho) as [n Hn]. rewrite Hn.
           unfold out_of. rewrite (Hexact o n (alookup_some_in _ _ _ Hn)). reflexivity.
       + (* the command runs *)
         unfold run_action. rewrite Eg.
         destruct (act (t_kind t) (outputs t) (tmp_ins ins)) as [news|] eqn:Ea.
         2:{ cbn [rn_st rn_failed]. split; [apply trust_remove; exact T|].
-            split; [intros rel Hn; apply remove_outputs_outs; exact Hn|reflexivity]. }
+            split; [apply claimed_frame; intros rel Hn; apply remove_outputs_outs; exact Hn|reflexivity]. }
         cbn [rn_st rn_failed].
         pose proof (act_names _ _ _ _ Ea) as Hnames.
         assert (Hgood' : Forall good (map snd (tmp_ins ins))) by (unfold tmp_ins; rewrite map_map; cbn [snd]; exact Hgood).
-        pose proof (act_good t _ _ Ut Hgood' Ea) as Hng.
+        assert (Ea' : result t (tmp_ins ins) = Some news) by (rewrite Hres; exact Ea).
+        pose proof (act_good t _ _ Ut Hgood' Ea') as Hng.
         set (st0 := set_meta (rn_st rn) (t_label t)).
         set (st1 := fold_left (move_output rk t) news st0).
         assert (G0 : AllGood st0) by (intros rel e H; eapply (tr_good _ T); exact H).
+        assert (Hfun : forall o n, In (o, n) news -> alookup o news = Some n) by (apply nodup_fun; rewrite Hnames; exact Hnd).
         assert (Hexact : forall o n, In (o, n) news -> s_outs st1 (out_rel t o) = Some (mkE n (Some rk))).
-        { apply move_fold_exact; try assumption. rewrite Hnames. exact Hnd. }
+        { apply (move_fold_exact rk t news (fun o => alookup o news)); assumption. }
         assert (Hframe : forall rel, ~ In rel (map (out_rel t) (map fst news)) -> s_outs st1 rel = s_outs (rn_st rn) rel).
         { intros rel Hn. subst st1. rewrite move_fold_outs by exact Hn. reflexivity. }
         assert (T1 : Trust st1).
-        { eapply (trust_written (rn_st rn) st1 t ins news); try eassumption.
-          subst st1. rewrite move_fold_cache. reflexivity. }
+        { eapply (trust_written (rn_st rn) st1 t ins news []); try eassumption.
+          - rewrite Hcm. reflexivity.
+          - intros _. exact Hnames.
+          - subst st1. rewrite move_fold_cache. reflexivity. }
         assert (Hco : current_outs t st1 = news).
         { apply current_outs_exact; [exact Hnames|]. intros o n Hin. eexists. apply Hexact. exact Hin. }
-        assert (Houts : forall o, In o (outputs t) -> out_of st1 t o = alookup o news).
-        { intros o Ho. rewrite <- Hnames in Ho. destruct (alookup_names news o Ho) as [n Hn]. rewrite Hn.
+        assert (Houts : forall o, In o (map fst news) -> out_of st1 t o = alookup o news).
+        { intros o Ho. destruct (alookup_names news o Ho) as [n Hn]. rewrite Hn.
           unfold out_of. rewrite (Hexact o n (alookup_some_in _ _ _ Hn)). reflexivity. }
         destruct c.
         * rewrite Hco. split; [apply trust_set_cache; assumption|].
-          split; [intros rel Hn; cbn [s_outs set_cache]; apply Hframe; rewrite Hnames; exact Hn|].
-          split; [reflexivity|]. intros o Ho. unfold out_of. cbn [s_outs set_cache]. apply Houts. exact Ho.
-        * split; [exact T1|]. split; [intros rel Hn; apply Hframe; rewrite Hnames; exact Hn|].
-          split; [reflexivity|exact Houts].
+          split; [apply claimed_frame; intros rel Hn; cbn [s_outs set_cache]; apply Hframe; rewrite Hnames; exact Hn|].
+          split; [reflexivity|]. split; [rewrite Hfull; symmetry; exact Hnames|].
+          intros o Ho. unfold out_of. cbn [s_outs set_cache]. apply Houts. exact Ho.
+        * split; [exact T1|]. split; [apply claimed_frame; intros rel Hn; apply Hframe; rewrite Hnames; exact Hn|].
+          split; [reflexivity|]. split; [rewrite Hfull; symmetry; exact Hnames|exact Houts].
     - (* skipped as up to date: Trust says the outputs are what the action would produce *)
       split; [exact T|]. split; [reflexivity|].
       unfold needs_build in Enb. apply orb_false_elim in Enb. destruct Enb as [_ Enb].
@@ -357,22 +412,119 @@ Section Trust.
       rewrite Hsk in Esrc. destruct (gather (read r (rn_st rn)) (all_paths r t)) as [ins|] eqn:Eg; cbn [option_map] in Esrc; [|discriminate].
       apply negb_false_iff in Esrc. destruct (skey_eqb_spec (snd rk) (key_of ins)) as [Ek|]; [|discriminate].
       pose proof (gather_good _ _ _ T Eg) as Hgood.
-      destruct rk as [dk sk]. cbn [fst snd] in *. subst dk sk.
+      destruct rk as [[dk po] sk]. unfold rk_def in Edk. cbn [fst snd] in *. subst dk sk.
       assert (Hper : forall o, In o (outputs t) -> exists e, s_outs (rn_st rn) (out_rel t o) = Some e
-                       /\ exists news, act (t_kind t) (outputs t) (tmp_ins ins) = Some news /\ alookup o news = Some (e_node e)).
+                       /\ exists news, result t (tmp_ins ins) = Some news /\ alookup o news = Some (e_node e)).
       { intros o Ho. pose proof (common_rec_each _ _ _ Ecr (out_rel t o)) as Hrec.
         unfold rec_at in Hrec. specialize (Hrec (in_map _ _ _ Ho)).
         destruct (s_outs (rn_st rn) (out_rel t o)) as [e|] eqn:Ee; [|discriminate].
         exists e. split; [reflexivity|].
-        exact (tr_rec _ T _ _ _ _ Ee Hrec t o Ut eq_refl Ho eq_refl ins eq_refl Hgood). }
+        assert (Hro : In o (rec_outs t po)) by (unfold rec_outs; rewrite Hcm; exact Ho).
+        destruct (tr_rec _ T _ _ _ _ _ Ee Hrec t o Ut eq_refl Hro eq_refl ins eq_refl Hgood) as (news & E1 & E2 & _).
+        exists news. split; assumption. }
       assert (Hne : exists o, In o (outputs t)).
-      { pose proof (wf_has r W t Ht) as Hh. unfold has_outs in Hh. rewrite Hfg in Hh. cbn [orb] in Hh.
-        unfold outputs. unfold is_filegroup in Hfg.
-        destruct (t_kind t); try discriminate; destruct (t_outs t) as [|o os]; try discriminate;
-          cbn [sort_str fold_right]; (destruct (fold_right ins_str [] os) as [|y ys]; cbn [ins_str];
-            [exists o; left; reflexivity|destruct (str_leb o y); eexists; left; reflexivity]). }
+      { pose proof (out_rels_nonempty t (wf_has r W t Ht) Hfg) as Hne. unfold out_rels in Hne.
+        destruct (outputs t) as [|o os]; [exfalso; apply Hne; reflexivity|]. exists o. left. reflexivity. }
       destruct Hne as [o0 Ho0]. destruct (Hper o0 Ho0) as (e0 & _ & news & Ea & _). rewrite Ea.
-      split; [reflexivity|]. intros o Ho. destruct (Hper o Ho) as (e & Ee & news' & Ea' & Hl).
+      split; [reflexivity|]. rewrite Hres in Ea. pose proof (act_names _ _ _ _ Ea) as Hnames.
+      split; [rewrite Hfull; symmetry; exact Hnames|].
+      intros o Ho. rewrite Hnames in Ho. destruct (Hper o Ho) as (e & Ee & news' & Ea' & Hl).
+      rewrite Hres in Ea'. assert (news' = news) by congruence. subst news'. unfold out_of. rewrite Ee, Hl. reflexivity.
+  Qed.
+
+  (* a target with output_dirs that does not go through stale_flow: built from its declared outputs, or both
+     checks pass and Trust says that the outputs named by the metadata are those a build would produce *)
+  Lemma build_od_spec rn done t todo : r_targets r = done ++ t :: todo -> is_filegroup t = false -> could_modify t = true ->
+    stale_flow r (rn_st rn) t = false ->
+    Trust (rn_st rn) -> rule_spec rn (build_rule_od r rn t) t.
+  Proof.
+    intros Hs Hfg Hcm Hq T.
+    assert (Ht : In t (r_targets r)) by (rewrite Hs; apply in_or_app; right; left; reflexivity).
+    pose proof (HU t Ht) as Ut. pose proof (iter_is_all t Ht) as Hiter.
+    unfold rule_spec, build_rule_od.
+    assert (Hsk : source_key r (rn_st rn) t = option_map key_of (gather (read r (rn_st rn)) (all_paths r t)))
+      by (unfold source_key; rewrite Hiter; reflexivity).
+    assert (Hfull : forall st, full_outs st t = meta_outs st t) by (intros st; unfold full_outs; rewrite Hcm; reflexivity).
+    assert (Hclaim : forall rel, ~ In rel (claimed r t) ->
+              ~ In rel (map (out_rel t) (outputs t)) /\ ~ In rel (map (out_rel t) (found_names r t))).
+    { intros rel Hn. unfold claimed in Hn. rewrite Hcm in Hn. split; intros Hi; apply Hn; apply in_or_app; [left|right]; exact Hi. }
+    unfold stale_flow in Hq. rewrite Hcm in Hq. cbn [andb] in Hq.
+    destruct (needs_build r (rn_st rn) t) eqn:Enb.
+    - (* rebuilt from the declared outputs *)
+      destruct (rebuild_od_frame r rn t (outputs t)) as [Hfr _].
+      assert (Hframe : forall rel, ~ In rel (claimed r t) -> s_outs (rn_st (rebuild_od r rn t (outputs t))) rel = s_outs (rn_st rn) rel).
+      { intros rel Hn. destruct (Hclaim rel Hn). apply Hfr; assumption. }
+      split; [|split; [exact Hframe|]]; unfold rebuild_od in *; rewrite Hsk in *;
+        destruct (gather (read r (rn_st rn)) (all_paths r t)) as [ins|] eqn:Eg; cbn [option_map] in *.
+      2:{ unfold fail_run. cbn [rn_st]. apply trust_remove_outs. exact T. }
+      3:{ reflexivity. }
+      + unfold run_od. rewrite Eg. destruct (od_cmd (outputs t) (tmp_ins ins)) as [[found news0]|] eqn:Ec.
+        2:{ cbn [rn_st]. apply trust_remove_outs. exact T. }
+        destruct (collect (found ++ news0) (add_outs (map fst found) (outputs t))) as [moved|] eqn:Eco.
+        2:{ cbn [rn_st]. apply trust_remove_outs. apply trust_set_meta_dyn. exact T. }
+        cbn [rn_st].
+        pose proof (gather_good _ _ _ T Eg) as Hgood.
+        assert (Ea : result t (tmp_ins ins) = Some moved) by (unfold result; rewrite Hcm, Ec; exact Eco).
+        assert (Hgood' : Forall good (map snd (tmp_ins ins))) by (unfold tmp_ins; rewrite map_map; cbn [snd]; exact Hgood).
+        pose proof (act_good t _ _ Ut Hgood' Ea) as Hng.
+        pose proof (collect_names _ _ _ Eco) as Hnames.
+        pose proof (collect_fun _ _ _ Eco) as Hfun.
+        set (st0 := set_meta_dyn (rn_st rn) (t_label t) (map fst found)).
+        assert (G0 : AllGood st0) by (intros rel e H; eapply (tr_good _ T); exact H).
+        eapply (trust_written (rn_st rn) _ t ins moved (map fst moved)); try eassumption.
+        * intros o n Hin. eapply alookup_fun; [exact Hfun|exact Hin].
+        * rewrite Hcm. reflexivity.
+        * intros E. congruence.
+        * rewrite Hnames. apply (move_fold_exact _ t moved (fun o => alookup o (found ++ news0))); assumption.
+        * intros rel Hn. rewrite move_fold_outs by exact Hn. reflexivity.
+        * rewrite move_fold_cache. reflexivity.
+      + unfold run_od. rewrite Eg. unfold result. rewrite Hcm.
+        destruct (od_cmd (outputs t) (tmp_ins ins)) as [[found news0]|] eqn:Ec; [|reflexivity].
+        destruct (collect (found ++ news0) (add_outs (map fst found) (outputs t))) as [moved|] eqn:Eco; [|reflexivity].
+        cbn [rn_st rn_failed].
+        pose proof (gather_good _ _ _ T Eg) as Hgood.
+        assert (Ea : result t (tmp_ins ins) = Some moved) by (unfold result; rewrite Hcm, Ec; exact Eco).
+        assert (Hgood' : Forall good (map snd (tmp_ins ins))) by (unfold tmp_ins; rewrite map_map; cbn [snd]; exact Hgood).
+        pose proof (act_good t _ _ Ut Hgood' Ea) as Hng.
+        pose proof (collect_names _ _ _ Eco) as Hnames.
+        pose proof (collect_fun _ _ _ Eco) as Hfun.
+        set (st0 := set_meta_dyn (rn_st rn) (t_label t) (map fst found)).
+        assert (G0 : AllGood st0) by (intros rel e H; eapply (tr_good _ T); exact H).
+        split; [reflexivity|]. split.
+        * rewrite Hfull. unfold meta_outs. rewrite move_fold_dyn. subst st0. cbn [s_dyn set_meta_dyn]. unfold upd.
+          rewrite str_eqb_refl. symmetry. exact Hnames.
+        * intros o Ho. destruct (alookup_names moved o Ho) as [n Hn]. rewrite Hn. unfold out_of.
+          rewrite (move_fold_exact _ t moved (fun o => alookup o (found ++ news0)) st0 G0 Hng Hfun o n (alookup_some_in _ _ _ Hn)).
+          reflexivity.
+    - (* both checks passed *)
+      cbn [negb andb] in Hq. rewrite Hq.
+      split; [exact T|]. split; [reflexivity|].
+      unfold needs_build_post in Hq. apply orb_false_elim in Hq. destruct Hq as [_ Hq].
+      destruct (common_rec (rn_st rn) (map (out_rel t) (meta_outs (rn_st rn) t))) as [rk|] eqn:Ecr; [|discriminate].
+      apply orb_false_elim in Hq. destruct Hq as [Edk Esrc].
+      apply negb_false_iff in Edk. apply andb_prop in Edk. destruct Edk as [Edk Epo].
+      apply str_eqb_eq in Edk. destruct (strs_eqb_spec (rk_outs rk) (meta_outs (rn_st rn) t)) as [Epo'|]; [|discriminate].
+      rewrite Hsk in Esrc. destruct (gather (read r (rn_st rn)) (all_paths r t)) as [ins|] eqn:Eg; cbn [option_map] in Esrc; [|discriminate].
+      apply negb_false_iff in Esrc. destruct (skey_eqb_spec (snd rk) (key_of ins)) as [Ek|]; [|discriminate].
+      pose proof (gather_good _ _ _ T Eg) as Hgood.
+      destruct rk as [[dk po] sk]. unfold rk_def, rk_outs in *. cbn [fst snd] in *. subst dk sk po.
+      assert (Hper : forall o, In o (meta_outs (rn_st rn) t) -> exists e, s_outs (rn_st rn) (out_rel t o) = Some e
+                       /\ exists news, result t (tmp_ins ins) = Some news /\ alookup o news = Some (e_node e)
+                                       /\ meta_outs (rn_st rn) t = map fst news).
+      { intros o Ho. pose proof (common_rec_each _ _ _ Ecr (out_rel t o)) as Hrec.
+        unfold rec_at in Hrec. specialize (Hrec (in_map _ _ _ Ho)).
+        destruct (s_outs (rn_st rn) (out_rel t o)) as [e|] eqn:Ee; [|discriminate].
+        exists e. split; [reflexivity|].
+        assert (Hro : In o (rec_outs t (meta_outs (rn_st rn) t))) by (unfold rec_outs; rewrite Hcm; exact Ho).
+        destruct (tr_rec _ T _ _ _ _ _ Ee Hrec t o Ut eq_refl Hro eq_refl ins eq_refl Hgood) as (news & E1 & E2 & E3).
+        exists news. split; [exact E1|]. split; [exact E2|]. apply E3. exact Hcm. }
+      assert (Hne : exists o, In o (meta_outs (rn_st rn) t)).
+      { pose proof (out_rels_nonempty t (wf_has r W t Ht) Hfg) as Hne. unfold out_rels in Hne.
+        destruct (outputs t) as [|o os] eqn:Eo; [exfalso; apply Hne; reflexivity|]. exists o.
+        unfold meta_outs. apply add_outs_In. right. rewrite Eo. left. reflexivity. }
+      destruct Hne as [o0 Ho0]. destruct (Hper o0 Ho0) as (e0 & _ & news & Ea & _ & Hmo). rewrite Ea.
+      split; [reflexivity|]. split; [rewrite Hfull; exact Hmo|].
+      intros o Ho. rewrite <- Hmo in Ho. destruct (Hper o Ho) as (e & Ee & news' & Ea' & Hl & _).
       assert (news' = news) by congruence. subst news'. unfold out_of. rewrite Ee, Hl. reflexivity.
   Qed.
 
@@ -454,17 +606,20 @@ Section Trust.
       | S _ => None
       end
     else match gather (read r st) (all_paths r t) with
-         | Some ins => act (t_kind t) (outputs t) (tmp_ins ins)
+         | Some ins => result t (tmp_ins ins)
          | None => None
          end.
   Definition fail_count (t : target) : nat := if is_filegroup t then missing t (outputs t) else 1.
 
   Definition step_spec (rn rn' : run) (t : target) : Prop :=
     Trust (rn_st rn')
-    /\ (forall rel, ~ In rel (out_rels t) -> s_outs (rn_st rn') rel = s_outs (rn_st rn) rel)
+    /\ (forall rel, ~ In rel (claimed r t) -> s_outs (rn_st rn') rel = s_outs (rn_st rn) rel)
+    /\ (forall l, l <> t_label t -> s_dyn (rn_st rn') l = s_dyn (rn_st rn) l)
     /\ match outcome (rn_st rn) t with
        | Some news => rn_failed rn' = rn_failed rn
-                      /\ forall o, In o (outputs t) -> out_of (rn_st rn') t o = alookup o news /\ alookup o news <> None
+                      /\ full_outs (rn_st rn') t = map fst news
+                      /\ (forall o, In o (map fst news) -> In (out_rel t o) (claimed r t))
+                      /\ forall o, In o (map fst news) -> out_of (rn_st rn') t o = alookup o news /\ alookup o news <> None
        | None => rn_failed rn' = repeat (t_label t) (fail_count t) ++ rn_failed rn
        end.
 
@@ -475,28 +630,72 @@ Section Trust.
     destruct Hin as [<-|Hin]; [exists c; exact E|apply IH; assumption].
   Qed.
 
+  (* the outputs of a result lie inside what the target claims *)
+  Lemma result_claimed st t ins news : In t (r_targets r) -> gather (read r st) (all_paths r t) = Some ins ->
+    result t (tmp_ins ins) = Some news -> forall o, In o (map fst news) -> In (out_rel t o) (claimed r t).
+  Proof.
+    intros Ht Eg Ea o Ho. unfold result in Ea. unfold claimed. destruct (could_modify t) eqn:Ecm.
+    - destruct (od_cmd (outputs t) (tmp_ins ins)) as [[found news0]|] eqn:Ec; [|discriminate].
+      apply collect_names in Ea. rewrite Ea in Ho. apply add_outs_In in Ho.
+      pose proof (od_cmd_found _ _ _ _ Ec) as Hf. subst found. rewrite (found_names_spec r st t ins Eg) in Ho.
+      apply in_or_app. destruct Ho as [Ho|Ho]; [right|left; unfold out_rels]; apply in_map; exact Ho.
+    - apply act_names in Ea. rewrite Ea in Ho. apply in_or_app. left. unfold out_rels. apply in_map. exact Ho.
+  Qed.
+
   Lemma build_one_spec c rn done t todo : r_targets r = done ++ t :: todo -> blocked r rn t = false ->
+    stale_flow r (rn_st rn) t = false ->
     Trust (rn_st rn) -> step_spec rn (build_one c r rn t) t.
   Proof.
-    intros Hs Hb T. unfold build_one. rewrite Hb. unfold step_spec, outcome, fail_count.
+    intros Hs Hb Hq T. unfold build_one. rewrite Hb. unfold step_spec, outcome, fail_count.
     pose proof (outputs_nodup done t todo Hs) as Hnd.
+    assert (Ht : In t (r_targets r)) by (rewrite Hs; apply in_or_app; right; left; reflexivity).
     destruct (is_filegroup t) eqn:Efg.
     - rewrite build_filegroup_fold. destruct (fg_fold_spec t (outputs t) rn Hnd T) as (T' & Hf & Ho).
-      split; [exact T'|]. split; [rewrite <- build_filegroup_fold; apply build_filegroup_frame|].
+      assert (Hcm : could_modify t = false) by (unfold could_modify; unfold is_filegroup in Efg; destruct (t_kind t); try discriminate; reflexivity).
+      split; [exact T'|].
+      split; [rewrite <- build_filegroup_fold; apply claimed_frame; apply build_filegroup_frame|].
+      split; [intros l _; rewrite <- build_filegroup_fold, build_filegroup_dyn; reflexivity|].
       destruct (missing t (outputs t)) eqn:Em.
-      + split; [exact Hf|]. intros o Hin. destruct (missing_zero t _ Em o Hin) as [c0 Hc].
+      + split; [exact Hf|].
+        assert (Hnames : map fst (map (fun f => (f, match alookup (join (t_pkg t) f) (r_files r) with
+                                     | Some c => File false c | None => File false [] end)) (outputs t)) = outputs t)
+          by (rewrite map_map; cbn [fst]; apply map_id).
+        rewrite Hnames. split; [unfold full_outs; rewrite Hcm; reflexivity|].
+        split; [intros o Hin; apply out_rels_claimed; unfold out_rels; apply in_map; exact Hin|].
+        intros o Hin. destruct (missing_zero t _ Em o Hin) as [c0 Hc].
         assert (Hl : alookup o (map (fun f => (f, match alookup (join (t_pkg t) f) (r_files r) with
                                      | Some c => File false c | None => File false [] end)) (outputs t)) = Some (File false c0)).
         { apply alookup_in.
-          - rewrite map_map. cbn [fst]. rewrite map_id. exact Hnd.
+          - rewrite Hnames. exact Hnd.
           - apply in_map_iff. exists o. rewrite Hc. split; [reflexivity|exact Hin]. }
         rewrite Hl. split; [apply Ho; assumption|discriminate].
       + exact Hf.
-    - destruct (build_rule_spec c rn done t todo Hs Efg T) as (T' & Hfr & Hspec). split; [exact T'|]. split; [exact Hfr|].
-      destruct (gather (read r (rn_st rn)) (all_paths r t)) as [ins|]; [|exact Hspec].
-      destruct (act (t_kind t) (outputs t) (tmp_ins ins)) as [news|] eqn:Ea; [|exact Hspec].
-      destruct Hspec as [Hf Ho]. split; [exact Hf|]. intros o Hin. split; [apply Ho; exact Hin|].
-      apply act_names in Ea. rewrite <- Ea in Hin. destruct (alookup_names news o Hin) as [v Hv]. rewrite Hv. discriminate.
+    - assert (Hspec : rule_spec rn (if could_modify t then build_rule_od r rn t else build_rule c r rn t) t
+                      /\ forall l, l <> t_label t ->
+                           s_dyn (rn_st (if could_modify t then build_rule_od r rn t else build_rule c r rn t)) l = s_dyn (rn_st rn) l).
+      { destruct (could_modify t) eqn:Ecm.
+        - split; [apply (build_od_spec rn done t todo); assumption|].
+          intros l Hl. destruct (build_rule_od_frame r rn t Hq Ecm) as [_ Hm]. apply Hm. exact Hl.
+        - split; [apply (build_rule_spec c rn done t todo); assumption|].
+          intros l Hl. unfold build_rule. destruct (negb (needs_build r (rn_st rn) t)); [reflexivity|].
+          destruct (source_key r (rn_st rn) t) as [sk|].
+          2:{ unfold fail_run. cbn [rn_st]. unfold remove_outputs. rewrite remove_fold_dyn. reflexivity. }
+          destruct (if c then s_cache (rn_st rn) (t_label t) ((t_defkey t, []), sk) else None) as [cached|].
+          + cbn [rn_st]. cbn [s_dyn set_meta set_meta_dyn]. unfold upd. apply str_eqb_neq in Hl. rewrite Hl.
+            clear. generalize (rn_st rn) as st0. induction cached as [|on cached IH]; intros st0; cbn [fold_left]; [reflexivity|].
+            rewrite IH. reflexivity.
+          + unfold run_action. destruct (gather _ _) as [ins|].
+            2:{ unfold fail_run. cbn [rn_st]. unfold remove_outputs. rewrite remove_fold_dyn. reflexivity. }
+            destruct (act _ _ _) as [news|].
+            2:{ cbn [rn_st]. unfold remove_outputs. rewrite remove_fold_dyn. reflexivity. }
+            destruct c; cbn [rn_st]; cbn [s_dyn set_cache]; rewrite move_fold_dyn; apply set_meta_dyn_other; exact Hl. }
+      destruct Hspec as [(T' & Hfr & Hspec) Hdyn]. split; [exact T'|]. split; [exact Hfr|]. split; [exact Hdyn|].
+      destruct (gather (read r (rn_st rn)) (all_paths r t)) as [ins|] eqn:Eg; [|exact Hspec].
+      destruct (result t (tmp_ins ins)) as [news|] eqn:Ea; [|exact Hspec].
+      destruct Hspec as (Hf & Hfull & Ho). split; [exact Hf|]. split; [exact Hfull|].
+      split; [eapply result_claimed; eassumption|].
+      intros o Hin. split; [apply Ho; exact Hin|].
+      destruct (alookup_names news o Hin) as [v Hv]. rewrite Hv. discriminate.
   Qed.
 
   (* ---------------------------------------------------------------------------------------- *)
@@ -504,7 +703,12 @@ Section Trust.
 
   Definition Agree (ds : list target) (a b : run) : Prop :=
     forall d, In d ds -> ~ In (t_label d) (rn_failed a) ->
-    forall o, In o (outputs d) -> out_of (rn_st a) d o = out_of (rn_st b) d o /\ out_of (rn_st a) d o <> None.
+    full_outs (rn_st a) d = full_outs (rn_st b) d
+    /\ (forall o, In o (full_outs (rn_st a) d) -> In (out_rel d o) (claimed r d))
+    /\ forall o, In o (full_outs (rn_st a) d) -> out_of (rn_st a) d o = out_of (rn_st b) d o /\ out_of (rn_st a) d o <> None.
+
+  Lemma outputs_in_full st d o : In o (outputs d) -> In o (full_outs st d).
+  Proof. intros H. unfold full_outs. destruct (could_modify d); [|exact H]. unfold meta_outs. apply add_outs_In. right. exact H. Qed.
 
   Lemma find_target_label ts l d : find_target ts l = Some d -> t_label d = l.
   Proof.
@@ -541,55 +745,74 @@ Section Trust.
             || match find_target (r_targets r) l with Some _ => false | None => true end) (label_srcs (t_srcs t)) = true).
         { apply existsb_exists. exists l. split; [exact Hl|]. rewrite <- Hdl. apply mem_In in Hi. rewrite Hi. reflexivity. }
         congruence. }
-      destruct (Hag d Hd Hnf o Ho) as [E _]. unfold out_of in E. rewrite Hrel. exact E. }
+      destruct (Hag d Hd Hnf) as (_ & _ & Hout). destruct (Hout o (outputs_in_full _ _ _ Ho)) as [E _].
+      unfold out_of in E. rewrite Hrel. exact E. }
     rewrite Hg. reflexivity.
   Qed.
 
+  Lemma blocked_stale c rn t todo : stale_in c r (t :: todo) rn = false -> blocked r rn t = false -> stale_flow r (rn_st rn) t = false.
+  Proof. intros H Hb. destruct (stale_in_cons _ _ _ _ _ H) as [Hq _]. apply Hq. exact Hb. Qed.
+
   Lemma sim ca cb : forall todo done a b, r_targets r = done ++ todo ->
     Trust (rn_st a) -> Trust (rn_st b) -> rn_failed a = rn_failed b -> Agree done a b ->
+    stale_in ca r todo a = false -> stale_in cb r todo b = false ->
     let a' := fold_left (build_one ca r) todo a in
     let b' := fold_left (build_one cb r) todo b in
     Trust (rn_st a') /\ Trust (rn_st b') /\ rn_failed a' = rn_failed b' /\ Agree (r_targets r) a' b'.
   Proof.
-    induction todo as [|t todo IH]; intros done a b Hs Ta Tb Hf Hag; cbn [fold_left].
+    induction todo as [|t todo IH]; intros done a b Hs Ta Tb Hf Hag Hqa Hqb; cbn [fold_left].
     - cbn zeta. rewrite app_nil_r in Hs. rewrite Hs. auto.
-    - cbn zeta. apply (IH (done ++ [t])); clear IH.
+    - cbn zeta.
+      pose proof (blocked_stale ca a t todo Hqa) as Hsa. pose proof (blocked_stale cb b t todo Hqb) as Hsb.
+      destruct (stale_in_cons _ _ _ _ _ Hqa) as [_ Hqa']. destruct (stale_in_cons _ _ _ _ _ Hqb) as [_ Hqb'].
+      assert (Ebb : blocked r b t = blocked r a t) by (unfold blocked; rewrite Hf; reflexivity).
+      apply (IH (done ++ [t])); clear IH; try assumption.
       + rewrite <- app_assoc. exact Hs.
       + unfold build_one. destruct (blocked r a t) eqn:Eb; [exact Ta|].
-        destruct (build_one_spec ca a done t todo Hs Eb Ta) as [T _]. unfold build_one in T. rewrite Eb in T. exact T.
+        destruct (build_one_spec ca a done t todo Hs Eb (Hsa eq_refl) Ta) as [T _]. unfold build_one in T. rewrite Eb in T. exact T.
       + unfold build_one. destruct (blocked r b t) eqn:Eb; [exact Tb|].
-        destruct (build_one_spec cb b done t todo Hs Eb Tb) as [T _]. unfold build_one in T. rewrite Eb in T. exact T.
-      + assert (Ebb : blocked r b t = blocked r a t) by (unfold blocked; rewrite Hf; reflexivity).
-        destruct (blocked r a t) eqn:Eb.
+        destruct (build_one_spec cb b done t todo Hs Eb (Hsb eq_refl) Tb) as [T _]. unfold build_one in T. rewrite Eb in T. exact T.
+      + destruct (blocked r a t) eqn:Eb.
         * unfold build_one. rewrite Eb, Ebb. cbn. rewrite Hf. reflexivity.
-        * destruct (build_one_spec ca a done t todo Hs Eb Ta) as (_ & _ & Sa).
-          destruct (build_one_spec cb b done t todo Hs Ebb Tb) as (_ & _ & Sb).
+        * destruct (build_one_spec ca a done t todo Hs Eb (Hsa eq_refl) Ta) as (_ & _ & _ & Sa).
+          destruct (build_one_spec cb b done t todo Hs Ebb (Hsb Ebb) Tb) as (_ & _ & _ & Sb).
           rewrite <- (outcome_agree done t todo a b Hs Hf Eb Hag) in Sb.
           destruct (outcome (rn_st a) t) as [news|].
           -- destruct Sa as [-> _], Sb as [-> _]. exact Hf.
           -- rewrite Sa, Sb, Hf. reflexivity.
-      + assert (Ebb : blocked r b t = blocked r a t) by (unfold blocked; rewrite Hf; reflexivity).
-        intros d Hd Hnf o Ho. apply in_app_or in Hd. destruct Hd as [Hd|[<-|[]]].
+      + intros d Hd Hnf. apply in_app_or in Hd. destruct Hd as [Hd|[<-|[]]].
         * (* an earlier target: untouched on both sides *)
-          assert (Fa : forall rel, ~ In rel (out_rels t) -> s_outs (rn_st (build_one ca r a t)) rel = s_outs (rn_st a) rel).
-          { destruct (blocked r a t) eqn:Eb; [unfold build_one; rewrite Eb; reflexivity|].
-            apply (build_one_spec ca a done t todo Hs Eb Ta). }
-          assert (Fb : forall rel, ~ In rel (out_rels t) -> s_outs (rn_st (build_one cb r b t)) rel = s_outs (rn_st b) rel).
-          { destruct (blocked r b t) eqn:Eb; [unfold build_one; rewrite Eb; reflexivity|].
-            apply (build_one_spec cb b done t todo Hs Eb Tb). }
-          assert (Hnot : ~ In (out_rel d o) (out_rels t)).
-          { intros Hi. eapply (outs_disjoint r done t todo d); try eassumption. unfold out_rels. apply in_map. exact Ho. }
-          unfold out_of. rewrite (Fa _ Hnot), (Fb _ Hnot). apply (Hag d Hd); [|exact Ho].
-          intros Hi. apply Hnf. destruct (build_one_failed ca r a t) as [n Hn]. rewrite Hn. apply in_or_app. right. exact Hi.
+          assert (Hlab : t_label d <> t_label t) by (eapply labels_distinct; eassumption).
+          assert (Fa : (forall rel, ~ In rel (claimed r t) -> s_outs (rn_st (build_one ca r a t)) rel = s_outs (rn_st a) rel)
+                       /\ s_dyn (rn_st (build_one ca r a t)) (t_label d) = s_dyn (rn_st a) (t_label d)).
+          { destruct (blocked r a t) eqn:Eb; [unfold build_one; rewrite Eb; split; reflexivity|].
+            destruct (build_one_spec ca a done t todo Hs Eb (Hsa eq_refl) Ta) as (_ & F1 & F2 & _). split; [exact F1|apply F2; exact Hlab]. }
+          assert (Fb : (forall rel, ~ In rel (claimed r t) -> s_outs (rn_st (build_one cb r b t)) rel = s_outs (rn_st b) rel)
+                       /\ s_dyn (rn_st (build_one cb r b t)) (t_label d) = s_dyn (rn_st b) (t_label d)).
+          { destruct (blocked r b t) eqn:Eb; [unfold build_one; rewrite Eb; split; reflexivity|].
+            destruct (build_one_spec cb b done t todo Hs Eb (Hsb eq_refl) Tb) as (_ & F1 & F2 & _). split; [exact F1|apply F2; exact Hlab]. }
+          destruct Fa as [Fa Da], Fb as [Fb Db].
+          assert (Hnf' : ~ In (t_label d) (rn_failed a)).
+          { intros Hi. apply Hnf. destruct (build_one_failed ca r a t) as [n Hn]. rewrite Hn. apply in_or_app. right. exact Hi. }
+          destruct (Hag d Hd Hnf') as (Hfu & Hcl & Hout).
+          assert (Ef : forall st st', s_dyn st' (t_label d) = s_dyn st (t_label d) -> full_outs st' d = full_outs st d).
+          { intros st st' E. unfold full_outs, meta_outs. rewrite E. reflexivity. }
+          rewrite (Ef _ _ Da), (Ef _ _ Db). split; [exact Hfu|]. split; [exact Hcl|].
+          intros o Ho.
+          assert (Hnot : ~ In (out_rel d o) (claimed r t)).
+          { intros Hi. eapply (claimed_disjoint r done t todo d); try eassumption. apply Hcl. exact Ho. }
+          unfold out_of. rewrite (Fa _ Hnot), (Fb _ Hnot). apply Hout. exact Ho.
         * (* the target just built *)
           destruct (blocked r a t) eqn:Eb.
           { exfalso. apply Hnf. unfold build_one. rewrite Eb. left. reflexivity. }
-          destruct (build_one_spec ca a done t todo Hs Eb Ta) as (_ & _ & Sa).
+          destruct (build_one_spec ca a done t todo Hs Eb (Hsa eq_refl) Ta) as (_ & _ & _ & Sa).
           assert (Ebf : blocked r b t = false) by congruence.
-          destruct (build_one_spec cb b done t todo Hs Ebf Tb) as (_ & _ & Sb).
+          destruct (build_one_spec cb b done t todo Hs Ebf (Hsb Ebf) Tb) as (_ & _ & _ & Sb).
           rewrite <- (outcome_agree done t todo a b Hs Hf Eb Hag) in Sb.
           destruct (outcome (rn_st a) t) as [news|] eqn:Eo.
-          -- destruct Sa as [_ Sa], Sb as [_ Sb]. destruct (Sa o Ho) as [Ea Hne], (Sb o Ho) as [Eb' _].
+          -- destruct Sa as (_ & Fa & Ca & Sa), Sb as (_ & Fb & _ & Sb). rewrite Fa, Fb.
+             split; [reflexivity|]. split; [exact Ca|].
+             intros o Ho. destruct (Sa o Ho) as [Ea Hne], (Sb o Ho) as [Eb' _].
              rewrite Ea, Eb'. split; [reflexivity|exact Hne].
           -- exfalso. apply Hnf. rewrite Sa.
              assert (Hpos : fail_count t <> 0).
@@ -599,16 +822,49 @@ Section Trust.
   Qed.
 
   Theorem builds_agree ca cb sta stb : Trust sta -> Trust stb ->
+    stale_in ca r (r_targets r) (mkRun sta [] []) = false -> stale_in cb r (r_targets r) (mkRun stb [] []) = false ->
     let a := build_all ca r sta in
     let b := build_all cb r stb in
     Trust (rn_st a) /\ rn_failed a = rn_failed b
-    /\ forall t, In t (r_targets r) -> ~ In (t_label t) (rn_failed a) -> outs_of (rn_st a) t = outs_of (rn_st b) t.
+    /\ forall t, In t (r_targets r) -> ~ In (t_label t) (rn_failed a) ->
+       outs_of (rn_st a) t = outs_of (rn_st b) t /\ all_outs_of (rn_st a) t = all_outs_of (rn_st b) t.
   Proof.
-    intros Ta Tb. cbn zeta. unfold build_all.
-    destruct (sim ca cb (r_targets r) [] (mkRun sta [] []) (mkRun stb [] []) eq_refl Ta Tb eq_refl) as (T & _ & Hf & Hag).
+    intros Ta Tb Hqa Hqb. cbn zeta. unfold build_all.
+    destruct (sim ca cb (r_targets r) [] (mkRun sta [] []) (mkRun stb [] []) eq_refl Ta Tb eq_refl) as (T & _ & Hf & Hag); try assumption.
     { intros d []. }
-    split; [exact T|]. split; [exact Hf|]. intros t Ht Hnf. unfold outs_of. apply map_ext_in. intros o Ho.
-    f_equal. apply (Hag t Ht Hnf o Ho).
+    split; [exact T|]. split; [exact Hf|]. intros t Ht Hnf. destruct (Hag t Ht Hnf) as (Hfu & _ & Hout). split.
+    - unfold outs_of. apply map_ext_in. intros o Ho. f_equal. apply (Hout o). apply outputs_in_full. exact Ho.
+    - unfold all_outs_of. rewrite <- Hfu. apply map_ext_in. intros o Ho. f_equal. apply (Hout o Ho).
+  Qed.
+
+  (* a build from a plz-out without metadata files never takes stale_flow *)
+  Lemma no_meta_quiet c : forall todo done rn, r_targets r = done ++ todo ->
+    (forall t, In t todo -> s_meta (rn_st rn) (t_label t) = false) -> stale_in c r todo rn = false.
+  Proof.
+    induction todo as [|t todo IH]; intros done rn Hs Hm; cbn [stale_in]; [reflexivity|].
+    assert (Hst : stale_flow r (rn_st rn) t = false).
+    { unfold stale_flow, needs_build. rewrite (Hm t (or_introl eq_refl)). cbn. destruct (could_modify t); reflexivity. }
+    rewrite Hst, andb_false_r. cbn [orb].
+    apply (IH (done ++ [t])); [rewrite <- app_assoc; exact Hs|].
+    intros u Hu.
+    assert (Hlab : t_label u <> t_label t).
+    { intros E. pose proof (wf_labels r W) as Hnd. rewrite Hs, map_app in Hnd. apply nodup_app_r in Hnd.
+      cbn [map] in Hnd. inversion Hnd as [|? ? Hnot _]; subst. apply Hnot. rewrite <- E. apply in_map. exact Hu. }
+    assert (Hmeta : s_meta (rn_st (build_one c r rn t)) (t_label u) = s_meta (rn_st rn) (t_label u)).
+    { unfold build_one. destruct (blocked r rn t); [reflexivity|].
+      destruct (is_filegroup t); [destruct (build_filegroup_frame r t rn) as (_ & E & _); rewrite E; reflexivity|].
+      destruct (could_modify t) eqn:Ecm.
+      - destruct (build_rule_od_frame r rn t Hst Ecm) as [_ H]. apply H. exact Hlab.
+      - unfold build_rule. destruct (negb (needs_build r (rn_st rn) t)); [reflexivity|].
+        destruct (source_key r (rn_st rn) t) as [sk|]; [|unfold fail_run; cbn [rn_st]; rewrite remove_outputs_meta; reflexivity].
+        destruct (if c then s_cache (rn_st rn) (t_label t) ((t_defkey t, []), sk) else None) as [cached|].
+        + cbn [rn_st]. rewrite set_meta_other by exact Hlab.
+          clear. generalize (rn_st rn) as st0. induction cached as [|on cached IH]; intros st0; cbn [fold_left]; [reflexivity|].
+          rewrite IH. reflexivity.
+        + unfold run_action. destruct (gather _ _); [|unfold fail_run; cbn [rn_st]; rewrite remove_outputs_meta; reflexivity].
+          destruct (act _ _ _); [|cbn [rn_st]; rewrite remove_outputs_meta; reflexivity].
+          destruct c; cbn [rn_st]; cbn [s_meta set_cache]; rewrite move_fold_meta; apply set_meta_other; exact Hlab. }
+    rewrite Hmeta. apply Hm. right. exact Hu.
   Qed.
 End Trust.
 
@@ -626,7 +882,7 @@ Section History.
   Hypothesis good_inj : forall a b, good a -> good b -> stream a = stream b -> a = b.
   Hypothesis good_file : forall c, good (File false c).
   Hypothesis act_good : forall t ins news, U t -> Forall good (map snd ins) ->
-    act (t_kind t) (outputs t) ins = Some news -> Forall good (map snd news).
+    result t ins = Some news -> Forall good (map snd news).
 
   Let TrustU := Trust U good.
 
@@ -635,10 +891,11 @@ Section History.
   Proof. cbn [step_wf]. intros H. apply andb_prop in H. destruct H as [H1 H2]. split; [apply wf_repo_WF; exact H1|exact H2]. Qed.
 
   Lemma trust_history : forall h st, forallb step_wf h = true ->
-    (forall t, In t (history_targets h) -> U t) -> TrustU st -> TrustU (run_history h st).
+    (forall t, In t (history_targets h) -> U t) -> quiet_history h st = true -> TrustU st -> TrustU (run_history h st).
   Proof.
-    induction h as [|s0 h IH]; intros st Hwf HU T; [exact T|].
+    induction h as [|s0 h IH]; intros st Hwf HU Hq T; [exact T|].
     cbn [forallb] in Hwf. apply andb_prop in Hwf. destruct Hwf as [Hs Hwf].
+    cbn [quiet_history] in Hq. apply andb_prop in Hq. destruct Hq as [Hq0 Hq].
     unfold run_history. cbn [fold_left]. apply IH; try assumption.
     - intros t Ht. apply HU. cbn [history_targets flat_map]. apply in_or_app. right. exact Ht.
     - destruct s0 as [c r req|]; cbn [do_hstep].
@@ -646,25 +903,37 @@ Section History.
         unfold plz_build.
         assert (HUr : forall t, In t (r_targets (restrict r req)) -> U t).
         { intros t Ht. apply HU. cbn [history_targets flat_map]. apply in_or_app. left. apply restrict_incl in Ht. exact Ht. }
-        destruct (builds_agree U good U_inj good_inj good_file act_good (restrict r req) W Hd HUr c false st st T T) as [T' _].
+        apply negb_true_iff in Hq0. unfold plz_stale in Hq0.
+        destruct (builds_agree U good U_inj good_inj good_file act_good (restrict r req) W Hd HUr c c st st T T Hq0 Hq0) as [T' _].
         exact T'.
       + apply trust_wipe. exact T.
   Qed.
 
-  (* after any history (builds with or without the cache, rm -rf plz-out), a build - with or without the
-     cache - agrees with a clean build without cache *)
+  Lemma quiet_history_app h1 h2 st : quiet_history (h1 ++ h2) st = true ->
+    quiet_history h1 st = true /\ quiet_history h2 (run_history h1 st) = true.
+  Proof.
+    revert st. induction h1 as [|s0 h1 IH]; intros st; cbn [app quiet_history]; [intros H; split; [reflexivity|exact H]|].
+    intros H. apply andb_prop in H. destruct H as [H0 H]. destruct (IH _ H) as [H1 H2].
+    split; [rewrite H0, H1; reflexivity|]. unfold run_history. cbn [fold_left]. exact H2.
+  Qed.
+
+  (* after any history (builds with or without the cache, rm -rf plz-out) in which no target with output_dirs
+     went through stale_flow, a build - with or without the cache - agrees with a clean build without cache *)
   Theorem incremental_is_clean c h r req :
     forallb step_wf (h ++ [HBuild c r req]) = true ->
     (forall t, In t (history_targets (h ++ [HBuild c r req])) -> U t) ->
+    quiet_history (h ++ [HBuild c r req]) empty_store = true ->
     let incr := plz_build c r req (run_history h empty_store) in
     let clean := plz_build false r req empty_store in
     rn_failed incr = rn_failed clean
     /\ forall t, In t (r_targets (restrict r req)) -> ~ In (t_label t) (rn_failed clean) ->
-       outs_of (rn_st incr) t = outs_of (rn_st clean) t.
+       outs_of (rn_st incr) t = outs_of (rn_st clean) t /\ all_outs_of (rn_st incr) t = all_outs_of (rn_st clean) t.
   Proof.
-    intros Hwf HU. rewrite forallb_app in Hwf. apply andb_prop in Hwf. destruct Hwf as [Hwfh Hlast].
+    intros Hwf HU Hq. rewrite forallb_app in Hwf. apply andb_prop in Hwf. destruct Hwf as [Hwfh Hlast].
     cbn [forallb] in Hlast. apply andb_prop in Hlast. destruct Hlast as [Hlast _].
     destruct (step_wf_parts c r req Hlast) as [W Hd].
+    destruct (quiet_history_app _ _ _ Hq) as [Hqh Hql]. cbn [quiet_history] in Hql.
+    apply andb_prop in Hql. destruct Hql as [Hql _]. apply negb_true_iff in Hql. unfold plz_stale in Hql.
     assert (T : TrustU (run_history h empty_store)).
     { apply trust_history; try assumption.
       - intros t Ht. apply HU. unfold history_targets. rewrite flat_map_app. apply in_or_app. left. exact Ht.
@@ -673,8 +942,10 @@ Section History.
     assert (HUr : forall t, In t (r_targets (restrict r req)) -> U t).
     { intros t Ht. apply HU. unfold history_targets. rewrite flat_map_app. apply in_or_app. right.
       cbn [flat_map]. rewrite app_nil_r. apply restrict_incl in Ht. exact Ht. }
+    assert (Hqc : stale_in false (restrict r req) (r_targets (restrict r req)) (mkRun empty_store [] []) = false).
+    { apply (no_meta_quiet (restrict r req) W false (r_targets (restrict r req)) []); [reflexivity|]. intros t _. reflexivity. }
     destruct (builds_agree U good U_inj good_inj good_file act_good (restrict r req) W Hd HUr c false
-                (run_history h empty_store) empty_store T (trust_empty U good)) as (_ & Hf & Ho).
+                (run_history h empty_store) empty_store T (trust_empty U good) Hql Hqc) as (_ & Hf & Ho).
     split; [exact Hf|]. intros t Ht Hnf. apply Ho; [exact Ht|]. rewrite Hf. exact Hnf.
   Qed.
 End History.
@@ -701,28 +972,85 @@ Proof.
     + intros H. injection H as <-. rewrite map_map. cbn [snd]. apply Forall_forall. intros n Hn.
       apply in_map_iff in Hn. destruct Hn as [o' [<- _]]. eexists; reflexivity.
     + discriminate.
+    + discriminate.
   - discriminate.
   - destruct (outputs t) as [|o [|o2 rest]]; try discriminate. intros H. injection H as <-.
     cbn [map snd]. constructor; [eexists; reflexivity|constructor].
 Qed.
 
-(* C01 / C02, partial: histories without directory outputs; c = false is C01, c = true is C02 *)
+(* what the output_dirs command leaves behind are copies of its (file) sources and the constant file *)
+Lemma ins_entry_files k v l : is_file v -> Forall is_file (map snd l) -> Forall is_file (map snd (ins_entry k v l)).
+Proof.
+  intros Hv. induction l as [|[k' v'] l IH]; intros Hl; cbn [ins_entry map snd]; [constructor; [exact Hv|constructor]|].
+  cbn [map snd] in Hl. inversion Hl as [|? ? H1 H2]; subst.
+  destruct (str_cmp k k'); cbn [map snd].
+  - constructor; assumption.
+  - constructor; [exact Hv|]. constructor; assumption.
+  - constructor; [exact H1|]. apply IH. exact H2.
+Qed.
+
+Lemma copy_entries_files ins : Forall is_file (map snd ins) -> Forall is_file (map snd (copy_entries ins)).
+Proof.
+  unfold copy_entries. assert (Hacc : Forall is_file (map snd (@nil (str * node)))) by constructor.
+  revert Hacc. generalize (@nil (str * node)) as acc. induction ins as [|pn ins IH]; intros acc Hacc Hins; cbn [fold_left]; [exact Hacc|].
+  cbn [map snd] in Hins. inversion Hins as [|? ? H1 H2]; subst. apply IH; [|exact H2]. apply ins_entry_files; assumption.
+Qed.
+
+Lemma collect_files tmp outs moved : Forall is_file (map snd tmp) -> collect tmp outs = Some moved -> Forall is_file (map snd moved).
+Proof.
+  intros Htmp. revert moved. induction outs as [|o outs IH]; intros moved; cbn [collect].
+  - intros H. injection H as <-. constructor.
+  - destruct (alookup o tmp) as [n|] eqn:En; [|discriminate]. destruct (collect tmp outs) as [l|]; [|discriminate].
+    intros H. injection H as <-. cbn [map snd]. constructor; [|apply IH; reflexivity].
+    apply alookup_some_in in En. rewrite Forall_forall in Htmp. apply Htmp. change n with (snd (o, n)). apply in_map. exact En.
+Qed.
+
+Lemma result_files t ins news : defect_class t = None -> Forall is_file (map snd ins) ->
+  result t ins = Some news -> Forall is_file (map snd news).
+Proof.
+  intros Hc Hins. unfold result. destruct (could_modify t).
+  - unfold od_cmd. destruct (outputs t) as [|o rest]; [discriminate|]. destruct (all_files ins); [|discriminate].
+    apply collect_files. rewrite map_app. apply Forall_app. split; [apply copy_entries_files; exact Hins|].
+    cbn [map snd]. constructor; [eexists; reflexivity|constructor].
+  - apply act_files; assumption.
+Qed.
+
+(* C01 / C02, partial: histories without directory outputs in which no target with output_dirs went through
+   stale_flow; c = false is C01, c = true is C02 *)
 Theorem incremental_is_clean_files c h r req :
   wf_history (h ++ [HBuild c r req]) -> dir_free (h ++ [HBuild c r req]) ->
+  quiet_history (h ++ [HBuild c r req]) empty_store = true ->
   let incr := plz_build c r req (run_history h empty_store) in
   let clean := plz_build false r req empty_store in
   run_ok incr = run_ok clean
   /\ rn_failed incr = rn_failed clean
   /\ forall t, In t (r_targets (restrict r req)) -> ~ In (t_label t) (rn_failed clean) ->
-     outs_of (rn_st incr) t = outs_of (rn_st clean) t.
+     outs_of (rn_st incr) t = outs_of (rn_st clean) t /\ all_outs_of (rn_st incr) t = all_outs_of (rn_st clean) t.
 Proof.
-  intros [Hwf Hkeys] Hdf.
+  intros [Hwf Hkeys] Hdf Hq.
   set (U := fun t => In t (history_targets (h ++ [HBuild c r req]))).
   assert (H1 : forall t t', U t -> U t' -> t_defkey t = t_defkey t' -> t = t') by (intros t t' Ht Ht'; apply Hkeys; assumption).
   assert (H2 : forall c, is_file (File false c)) by (intros c0; exists c0; reflexivity).
   assert (H3 : forall t ins news, U t -> Forall is_file (map snd ins) ->
-             act (t_kind t) (outputs t) ins = Some news -> Forall is_file (map snd news))
-    by (intros t ins news Ut; apply act_files; apply Hdf; exact Ut).
-  destruct (incremental_is_clean U is_file H1 is_file_inj H2 H3 c h r req Hwf (fun t Ht => Ht)) as [Hf Ho].
+             result t ins = Some news -> Forall is_file (map snd news))
+    by (intros t ins news Ut; apply result_files; apply Hdf; exact Ut).
+  destruct (incremental_is_clean U is_file H1 is_file_inj H2 H3 c h r req Hwf (fun t Ht => Ht) Hq) as [Hf Ho].
   cbn zeta in *. split; [unfold run_ok; rewrite Hf; reflexivity|]. split; [exact Hf|exact Ho].
+Qed.
+
+(* without targets that have output_dirs no build goes through stale_flow *)
+Lemma od_free_stale c r : forall ts rn, (forall t, In t ts -> could_modify t = false) -> stale_in c r ts rn = false.
+Proof.
+  induction ts as [|t ts IH]; intros rn H; cbn [stale_in]; [reflexivity|].
+  unfold stale_flow. rewrite (H t (or_introl eq_refl)). cbn [andb]. rewrite andb_false_r. cbn [orb].
+  apply IH. intros u Hu. apply H. right. exact Hu.
+Qed.
+
+Lemma od_free_quiet : forall h st, od_free h -> quiet_history h st = true.
+Proof.
+  induction h as [|s0 h IH]; intros st H; cbn [quiet_history]; [reflexivity|].
+  rewrite IH.
+  - rewrite andb_true_r. destruct s0 as [c r req|]; [|reflexivity]. apply negb_true_iff. unfold plz_stale.
+    apply od_free_stale. intros t Ht. apply H. cbn [history_targets flat_map]. apply in_or_app. left. apply restrict_incl in Ht. exact Ht.
+  - intros t Ht. apply H. cbn [history_targets flat_map]. apply in_or_app. right. exact Ht.
 Qed.
